@@ -272,6 +272,8 @@ struct Tracee {
     fault_at: Option<(usize, i64)>,
     /// persistent failure: every in-operation call of this name fails with this errno
     fault_all: Option<(String, i64)>,
+    /// how many more matching calls fail (None: all of them)
+    fault_left: Option<u64>,
     /// calls performed inside the current operation (a bound turns an endless retry loop into a "stuck" event)
     calls_in_op: usize,
     ops_done: usize,
@@ -1066,7 +1068,10 @@ fn advance(t: &mut Tracee, ctx: &mut RunCtx, sched: bool, stop_after_ret: bool) 
                     return Adv::Crashed;
                 }
                 if let Some((name, errno)) = &t.fault_all {
-                    if call.name == name && (t.phase == "lib" || t.phase == "cb") {
+                    if call.name == name && (t.phase == "lib" || t.phase == "cb") && t.fault_left != Some(0) {
+                        if let Some(n) = t.fault_left {
+                            t.fault_left = Some(n - 1);
+                        }
                         let mut regs = get_regs(pid);
                         regs.orig_rax = u64::MAX; // skip the call
                         set_regs(pid, &regs);
@@ -1573,6 +1578,7 @@ fn run_stage(stage: &Value, ctx: &mut RunCtx, actor: &str, job: &Value, strategy
             crash_at: p["crash_at"].as_u64().map(|x| x as usize),
             fault_at: p["fault_at"].as_u64().map(|x| (x as usize, errno_of_name(p["fault_errno"].as_str().unwrap_or("EIO")))),
             fault_all: p["fault_all"]["call"].as_str().map(|c| (c.to_string(), errno_of_name(p["fault_all"]["errno"].as_str().unwrap_or("EIO")))),
+            fault_left: p["fault_all"]["count"].as_u64(),
             calls_in_op: 0,
             ops_done: 0,
             callnames: Vec::new(),
@@ -1873,6 +1879,35 @@ fn main() {
         let max_runs = ex["runs"].as_u64().unwrap_or(1);
         let mut runs = 0u64;
         match kind {
+            "bursts" => {
+                // check-then-act races with ONE switch: participant a runs j steps, then participant b runs to completion, then
+                // everybody else; for every ordered pair (a, b) and every j up to the length of a's run
+                let nparts = job["stages"].as_array().and_then(|st| st.iter().find(|s| s["mode"] == "sched").map(|s| s["parts"].as_array().map(|a| a.len()).unwrap_or(0))).unwrap_or(0);
+                let stride = ex["stride"].as_u64().unwrap_or(1).max(1) as usize;
+                'outer: for a in 0..nparts {
+                    for b in 0..nparts {
+                        if a == b {
+                            continue;
+                        }
+                        let mut j = ex["offset"].as_u64().unwrap_or(0) as usize % stride;
+                        loop {
+                            let mut sched: Vec<usize> = vec![a; j];
+                            sched.extend(std::iter::repeat(b).take(4000));
+                            runs += 1;
+                            let (res, _) = run_once(&job, runs, &actor, &work, &mut out, &sched, None);
+                            // a's prefix was longer than its whole run: every later j repeats this schedule
+                            let a_choices = res.choices.iter().take_while(|c| **c == a).count();
+                            if a_choices < j || runs >= max_runs {
+                                if runs >= max_runs {
+                                    break 'outer;
+                                }
+                                break;
+                            }
+                            j += stride;
+                        }
+                    }
+                }
+            }
             "random" => {
                 let mut rng = Rng(ex["seed"].as_u64().unwrap_or(1));
                 for _ in 0..max_runs {
